@@ -276,7 +276,59 @@ def print_wrap(R, P):
         R.check(len(ih) == 1 and "s_aws_cJSON_alloc" in txt and "s_aws_cJSON_free" in txt, "PRINT-WRAP", "module-allocator-hooks", "%s()" % f.name, "cJSON allocates through the module allocator")
 
 
-from rules.cjson_depth import depth_balance
+from rules.cjson_depth import depth_balance, print_room
+
+
+def surrogates(R, P):
+    """ESCAPE-AGREE/surrogate: for every high surrogate in [D800, DBFF] followed by a low surrogate in [DC00, DFFF] the code
+    point the parser computes is 0x10000 + (high - 0xD800) * 0x400 + (low - 0xDC00) (UTF-16), decided by NUM for all pairs
+    whatever way the expression is written (masks, shifts, or-ing of disjoint bit ranges)."""
+    from sa.awslib import AwsHooks
+    from sa.num import Num, Poly, Limit, entails
+    f = P.fn("utf16_literal_to_utf8")
+    if not R.require(f is not None, "utf16_literal_to_utf8 not found in cJSON.c"):
+        return
+    R.fn(f)
+
+    class H(AwsHooks):
+        def call(self, num, st, e, args):
+            if (e.get("callee") or "") == "parse_hex4":
+                a = num.fresh(st, "hex4", None, (0, 0xFFFF))
+                st.notes["hex"] = list(st.notes.get("hex", [])) + [a]
+                return Poly.atom(a)
+            return AwsHooks.call(self, num, st, e, args)
+    num = Num(f, P, H(), max_paths=20000)
+    asg = [el for b in f.blocks.values() for el in b.elems if el["k"] == "bin" and el["op"] == "=" and f.show(f.d(el["a"][0])) == "codepoint"]
+    if not R.require(len(asg) >= 2, "utf16_literal_to_utf8: code point assignments not found"):
+        return
+    try:
+        sts = num.states_at(set(), after_ids={a["id"] for a in asg})
+    except Limit as ex:
+        R.broken(str(ex))
+        return
+    n_pair, n_single, bad = 0, 0, ""
+    for a in asg:
+        for st in sts.get(("after", a["id"]), []):
+            hx = st.notes.get("hex", [])
+            cp = st.env.get("v:codepoint")
+            if cp is None:
+                bad = "code point not tracked"
+                continue
+            if len(hx) == 2:
+                F, S = Poly.atom(hx[0]), Poly.atom(hx[1])
+                inr = entails(st, Poly.const(0xD800) - F) and entails(st, F - 0xDBFF) and entails(st, Poly.const(0xDC00) - S) and entails(st, S - 0xDFFF)
+                want = Poly.const(0x10000) + (F - 0xD800) * 1024 + (S - 0xDC00)
+                n_pair += 1
+                if not inr:
+                    bad = "a pair is combined without both halves having been checked to be a high and a low surrogate"
+                elif not (entails(st, cp - want) and entails(st, want - cp)):
+                    bad = "the pair (high, low) decodes to %r, UTF-16 says 0x10000 + (high - 0xD800) * 0x400 + (low - 0xDC00)" % cp
+            elif len(hx) == 1:
+                n_single += 1
+                if cp != Poly.atom(hx[0]):
+                    bad = "a single \\uXXXX escape decodes to %r" % cp
+    R.check(not bad and n_pair >= 1 and n_single >= 1, "ESCAPE-AGREE", "surrogate-pair-formula", "%s in utf16_literal_to_utf8()" % CJ, "every surrogate pair decodes to the UTF-16 code point, single escapes to themselves (NUM, all pairs)",
+            "escaped characters beyond the BMP are decoded to another code point than the text denotes: %s" % bad)
 
 
 def analyse(ctx, replace=None, only=None):
@@ -289,7 +341,9 @@ def analyse(ctx, replace=None, only=None):
     tmpkey(R, P)
     tree_shape(R, P)
     depth_balance(R, P)
+    print_room(R, P)
     escapes(R, P)
+    surrogates(R, P)
     numbers(R, P)
     print_wrap(R, P)
     C04.wrappers(R, P)
@@ -300,6 +354,8 @@ MUTANTS = [
     {"name": "remove-case-sensitive", "file": FILE, "expect": "GUARD", "old": "    cJSON_DeleteItemFromObject(cjson, key);", "new": "    cJSON_DeleteItemFromObjectCaseSensitive(cjson, key);"},
     {"name": "array-index-off-by-one", "file": FILE, "expect": "GUARD", "old": "    if (index >= (size_t)cJSON_GetArraySize(cjson)) {\n        return aws_raise_error(AWS_ERROR_INVALID_INDEX);\n    }\n\n    cJSON_DeleteItemFromArray", "new": "    if (index > (size_t)cJSON_GetArraySize(cjson)) {\n        return aws_raise_error(AWS_ERROR_INVALID_INDEX);\n    }\n\n    cJSON_DeleteItemFromArray"},
     {"name": "tmp-key-leaked", "file": FILE, "expect": "TMPKEY", "old": "    bool result = aws_json_value_has_key_c_str(object, aws_string_c_str(tmp));\n\n    aws_string_destroy_secure(tmp);\n    return result;", "new": "    bool result = aws_json_value_has_key_c_str(object, aws_string_c_str(tmp));\n    if (!result) {\n        return result;\n    }\n    aws_string_destroy_secure(tmp);\n    return result;"},
+    {"name": "object-closing-line-under-reserved", "file": CJ, "expect": "PRINT-WRAP", "old": "    output_pointer = ensure(output_buffer, output_buffer->format ? (output_buffer->depth + 1) : 2);", "new": "    output_pointer = ensure(output_buffer, 2);"},
+    {"name": "surrogate-high-mask-narrowed", "file": CJ, "expect": "ESCAPE-AGREE", "old": "(((first_code & 0x3FF) << 10) | (second_code & 0x3FF))", "new": "(((first_code & 0xFF) << 10) | (second_code & 0x3FF))"},
     {"name": "empty-array-keeps-depth", "file": CJ, "expect": "TREE-SHAPE", "old": "        goto fail; /* expected end of array */\n    }\n\nsuccess:\n    input_buffer->depth--;\n", "new": "        goto fail; /* expected end of array */\n    }\n    input_buffer->depth--;\n\nsuccess:\n"},
     {"name": "detach-last-keeps-tail", "file": CJ, "expect": "TREE-SHAPE", "old": "    else if (item->next == NULL)\n    {\n        /* last element */\n        parent->child->prev = item->prev;\n    }", "new": ""},
     {"name": "append-forgets-tail", "file": CJ, "expect": "TREE-SHAPE", "old": "            suffix_object(child->prev, item);\n            array->child->prev = item;", "new": "            suffix_object(child->prev, item);"},
